@@ -72,6 +72,11 @@ def cases(tier, seed):
                 d.update({"fields": ["temp", "density", "Z"], "layout": lay, "payload": "coded" if (gi + li) % 2 == 0 else "hostile",
                           "seed": seed})
                 out.append({"desc": d, "schedules": li == 0 and gi == 0, "w": nlev})
+    # field names that differ only by letter case
+    d = dict(scope.named_meshes(2)[1])
+    d.update(geos[1])
+    d.update({"fields": list(scope.CASE_FIELDS), "layout": [None, scope.layouts(2, 'idrev')[-1]], "payload": "coded", "seed": seed})
+    out.append({"desc": d, "schedules": False, "w": 4})
     return out
 
 
